@@ -35,6 +35,8 @@ pub enum Cond {
     HashIfDef,
     HashIfNDef,
     HashIf,
+    /// numeric conditions other than 0/1: negative, large, computed (any non-zero value holds)
+    Value,
     /// a condition that cannot be evaluated (undefined symbol): only where it must not be evaluated
     Unevaluable,
 }
@@ -65,7 +67,7 @@ impl RefModel for CondModel {
     fn actions(&self, s: &St) -> Vec<Act> {
         let mut v = vec![];
         if s.stack.len() < self.max_nest {
-            for c in [Cond::Lit, Cond::Equ, Cond::IfDef, Cond::IfNDef, Cond::HashIfDef, Cond::HashIfNDef, Cond::HashIf] {
+            for c in [Cond::Lit, Cond::Equ, Cond::IfDef, Cond::IfNDef, Cond::HashIfDef, Cond::HashIfNDef, Cond::HashIf, Cond::Value] {
                 v.push(Act::If(c, true));
                 v.push(Act::If(c, false));
             }
@@ -75,7 +77,7 @@ impl RefModel for CondModel {
         }
         if let Some(f) = s.stack.last() {
             if !f.else_seen {
-                for c in [Cond::Lit, Cond::Equ] {
+                for c in [Cond::Lit, Cond::Equ, Cond::Value] {
                     v.push(Act::Elif(c, true));
                     v.push(Act::Elif(c, false));
                 }
@@ -137,11 +139,17 @@ fn unselected_payload(kind: usize, id: usize) -> String {
     }
 }
 
-fn cond_text(c: Cond, truth: bool, elif: bool, hash: bool) -> String {
+/// numeric conditions: every non-zero value holds
+const TRUE_VALUES: [&str; 6] = ["-1", "2", "0x100", "k_cond - 5", "~0", "1 - 3"];
+const FALSE_VALUES: [&str; 4] = ["0", "k_cond - 3", "2 - 2", "!5"];
+
+fn cond_text(c: Cond, truth: bool, elif: bool, hash: bool, salt: usize) -> String {
     let dot = if hash { "#" } else { "." };
+    let value = if truth { TRUE_VALUES[salt % TRUE_VALUES.len()] } else { FALSE_VALUES[salt % FALSE_VALUES.len()] };
     if elif {
         return match c {
             Cond::Lit => format!("{}elif {}", dot, if truth { 1 } else { 0 }),
+            Cond::Value => format!("{}elif {}", dot, value),
             Cond::Equ => format!("{}elif k_cond {} 4", dot, if truth { "<" } else { ">" }),
             _ => format!("{}elif undefined_cond_sym", dot),
         };
@@ -154,6 +162,7 @@ fn cond_text(c: Cond, truth: bool, elif: bool, hash: bool) -> String {
         Cond::HashIfDef => format!("#ifdef {}", if truth { "DEF_FLAG" } else { "UNDEF_FLAG" }),
         Cond::HashIfNDef => format!("#ifndef {}", if truth { "UNDEF_FLAG" } else { "DEF_FLAG" }),
         Cond::HashIf => format!("#if {}", if truth { "2 - 1" } else { "1 - 1" }),
+        Cond::Value => format!(".if {}", value),
         Cond::Unevaluable => ".if undefined_cond_sym".to_string(),
     }
 }
@@ -167,7 +176,14 @@ pub struct Rendered {
 }
 
 impl CondModel {
+    /// `density`: which positions carry a payload line. 0 = after every directive; 1 / 2 = only
+    /// after directives at even / odd positions; 3 = none between directives (only before the
+    /// first and after the last), so that directives are directly adjacent.
     pub fn render(&self, trace: &[Act]) -> Rendered {
+        self.render_density(trace, 0)
+    }
+
+    pub fn render_density(&self, trace: &[Act], density: u8) -> Rendered {
         let prologue = ".equ k_cond = 3\n.define DEF_FLAG\nouter_lbl:\n";
         let mut program = String::from(prologue);
         let mut flattened = String::from(prologue);
@@ -205,11 +221,12 @@ impl CondModel {
         for _ in 0..tmp.stack.len() {
             all.push(Act::Endif);
         }
+        let nall = all.len();
         for (i, a) in all.iter().enumerate() {
             let hash = i % 3 == 1;
             match a {
                 Act::If(c, t) => {
-                    program.push_str(&cond_text(*c, *t, false, false));
+                    program.push_str(&cond_text(*c, *t, false, false, salt + i));
                     program.push('\n');
                     if !s.stack.is_empty() {
                         features.insert("nested");
@@ -227,6 +244,9 @@ impl CondModel {
                         Cond::Unevaluable => {
                             features.insert("unevaluated-condition");
                         }
+                        Cond::Value => {
+                            features.insert("numeric-value");
+                        }
                         Cond::Lit => {}
                     }
                 }
@@ -240,7 +260,7 @@ impl CondModel {
                     if *c == Cond::Unevaluable {
                         features.insert("unevaluated-condition");
                     }
-                    program.push_str(&cond_text(*c, *t, true, hash));
+                    program.push_str(&cond_text(*c, *t, true, hash, salt + i));
                     program.push('\n');
                 }
                 Act::Else => {
@@ -255,7 +275,18 @@ impl CondModel {
                 Act::Endif => program.push_str(if hash { "#endif\n" } else { ".endif\n" }),
             }
             s = self.step(&s, a).unwrap();
-            payload(&s, &mut program, &mut flattened, &mut code, &mut markers, salt);
+            let keep = match density {
+                0 => true,
+                1 => i % 2 == 0,
+                2 => i % 2 == 1,
+                _ => false,
+            };
+            if keep || i + 1 == nall {
+                payload(&s, &mut program, &mut flattened, &mut code, &mut markers, salt);
+            }
+        }
+        if density != 0 {
+            features.insert("adjacent-directives");
         }
         Rendered { program, flattened, code, markers, features }
     }
@@ -294,7 +325,8 @@ pub fn run(tier: Tier) -> i32 {
     let act_use: Mutex<BTreeMap<String, u64>> = Mutex::new(BTreeMap::new());
     let samples: Mutex<Vec<serde_json::Value>> = Mutex::new(vec![]);
     let traces = mc::conform(&m, &ex, k, |trace| {
-        let r = m.render(trace);
+      for density in 0..4u8 {
+        let r = m.render_density(trace, density);
         let o1 = sut::build_str(&r.program);
         let o2 = sut::build_str(&r.flattened);
         if let Some(a) = trace.last() {
@@ -344,24 +376,28 @@ pub fn run(tier: Tier) -> i32 {
         } else if trace.len() >= 5 {
             let mut s = samples.lock().unwrap();
             if s.len() < 2 {
-                s.push(json!({"trace": format!("{:?}", trace), "source": r.program, "expected_code": sut::hex(&r.code), "expected_message_markers": r.markers}));
+                s.push(json!({"trace": format!("{:?}", trace), "payload_density": density, "source": r.program, "expected_code": sut::hex(&r.code), "expected_message_markers": r.markers}));
             }
         }
+      }
     });
     let distinct = outcomes.lock().unwrap().len();
     rep.guard(ex.states > 50, "fewer than 50 model states");
     rep.guard(distinct > 100, "fewer than 100 distinct observed images");
-    rep.guard(act_use.lock().unwrap().len() >= 13, "not every action of the alphabet was used as last action");
+    rep.guard(act_use.lock().unwrap().len() >= 15, "not every action of the alphabet was used as last action");
     for s in samples.into_inner().unwrap() {
         rep.sample(|| s);
     }
     rep.assume("well-formed conditional structure only (no .elif/.else after .else, .endif only inside a construct); open constructs are closed at the end of the trace");
     rep.assume("conditions on literals, .equ constants and .define flags; a condition that must not be evaluated may be ill-formed");
     rep.assume("messages are compared by their marker text, not by format or line number");
+    rep.assume("every trace is rendered four times: with a payload line after every directive, after every second one (two phases) and with directly adjacent directives");
     let coverage = cov(json!({
         "states": ex.states,
         "transitions": ex.transitions,
         "traces_validated_against_impl": traces,
+        "renderings_per_trace": 4,
+        "programs_built": traces * 4,
         "state_cover_size": ex.states,
         "bound": {"N1_model_depth": n1, "k_extension": k, "nesting": nest},
         "exhaustive": true,
